@@ -235,6 +235,17 @@ fn main() {
                     let _ = s.sample_x(&pt, &ed, &st);
                 }
                 let ts = t0.elapsed().as_secs_f64();
+                if let Ok(c) = &r {
+                    let same_img = c.image() == img;
+                    let mut diff = 0;
+                    for _ in 0..100 {
+                        let pt: Vec<u64> = (0..s.dimension()).map(|_| rng.unit_open().to_bits()).collect();
+                        if !s.sample_x(&pt, &ed, &st).same(&c.sample_x(&pt, &ed, &st)) {
+                            diff += 1;
+                        }
+                    }
+                    say!("restored image equal: {}; samples differing after restore: {}/100", same_img, diff);
+                }
                 say!("E={} build {:.3}s image {:.3}s restore {:.3}s ok={} 100 samples {:.3}s", e, tb, ti, tr, r.is_ok(), ts);
             } else {
                 say!("E={} build {:.3}s: not accepted", e, tb);
